@@ -106,8 +106,64 @@ pub fn fnv(s: &str) -> String {
     format!("{:016x}", h)
 }
 
+/// exactly `#[cfg(test)]` (not `#[cfg(not(test))]`, which is compiled into every build *except* the test build and
+/// would therefore escape both the translator and the crate's own tests)
 fn is_cfg_test(attrs: &[Attribute]) -> bool {
-    attrs.iter().any(|a| a.path().is_ident("cfg") && a.to_token_stream().to_string().contains("test"))
+    attrs.iter().any(|a| a.to_token_stream().to_string().replace(' ', "") == "#[cfg(test)]")
+}
+
+/// a conditional-compilation attribute other than `#[cfg(test)]` and `#[cfg(feature = "serde")]`
+fn odd_cfg(attrs: &[Attribute]) -> Option<String> {
+    for a in attrs {
+        if a.path().is_ident("cfg") || a.path().is_ident("cfg_attr") {
+            let t = a.to_token_stream().to_string().replace(' ', "");
+            if t != "#[cfg(test)]" && t != "#[cfg(feature=\"serde\")]" && !t.starts_with("#[cfg_attr(feature=\"serde\",") {
+                return Some(t);
+            }
+        }
+    }
+    None
+}
+
+fn item_attrs(it: &syn::Item) -> &[Attribute] {
+    match it {
+        syn::Item::Const(x) => &x.attrs,
+        syn::Item::Enum(x) => &x.attrs,
+        syn::Item::ExternCrate(x) => &x.attrs,
+        syn::Item::Fn(x) => &x.attrs,
+        syn::Item::ForeignMod(x) => &x.attrs,
+        syn::Item::Impl(x) => &x.attrs,
+        syn::Item::Macro(x) => &x.attrs,
+        syn::Item::Mod(x) => &x.attrs,
+        syn::Item::Static(x) => &x.attrs,
+        syn::Item::Struct(x) => &x.attrs,
+        syn::Item::Trait(x) => &x.attrs,
+        syn::Item::TraitAlias(x) => &x.attrs,
+        syn::Item::Type(x) => &x.attrs,
+        syn::Item::Union(x) => &x.attrs,
+        syn::Item::Use(x) => &x.attrs,
+        _ => &[],
+    }
+}
+
+/// items declared inside an expression (a function body, the initialiser of a `const`): `impl` blocks, traits and macros
+/// declared there are visible to the whole crate although no item-level scan sees them
+fn nested_items(b: &Block) -> Vec<String> {
+    struct V(Vec<String>);
+    impl<'ast> syn::visit::Visit<'ast> for V {
+        fn visit_item(&mut self, i: &'ast syn::Item) {
+            match i {
+                syn::Item::Impl(im) => self.0.push(format!("impl … for {}", im.self_ty.to_token_stream())),
+                syn::Item::Trait(t) => self.0.push(format!("trait {}", t.ident)),
+                syn::Item::Macro(m) if m.mac.path.is_ident("macro_rules") => self.0.push("macro_rules!".into()),
+                _ => {}
+            }
+            syn::visit::visit_item(self, i);
+        }
+    }
+    let mut v = V(vec![]);
+    syn::visit::Visit::visit_block(&mut v, b);
+    v.0
 }
 
 fn trait_name(p: &Path) -> String {
@@ -150,6 +206,35 @@ impl Crate {
     }
 
     fn add_item(&mut self, file: &str, it: &syn::Item, _outer: Option<&str>) {
+        if !is_cfg_test(item_attrs(it)) {
+            if let Some(c) = odd_cfg(item_attrs(it)) {
+                self.global_problems.push(format!("conditionally compiled item: `{}`", c));
+            }
+            // `impl`, `trait`, `macro_rules!` declared inside a body or an initialiser
+            let nested: Vec<String> = match it {
+                syn::Item::Fn(f) => nested_items(&f.block),
+                syn::Item::Impl(im) => im
+                    .items
+                    .iter()
+                    .flat_map(|ii| match ii {
+                        ImplItem::Fn(f) => nested_items(&f.block),
+                        _ => vec![],
+                    })
+                    .collect(),
+                syn::Item::Const(c) => match &*c.expr {
+                    Expr::Block(b) => nested_items(&b.block),
+                    _ => vec![],
+                },
+                syn::Item::Static(c) => match &*c.expr {
+                    Expr::Block(b) => nested_items(&b.block),
+                    _ => vec![],
+                },
+                _ => vec![],
+            };
+            for n in nested {
+                self.global_problems.push(format!("`{}` declared inside a body or an initialiser is not read as an item", n));
+            }
+        }
         match it {
             syn::Item::Fn(f) => {
                 if is_cfg_test(&f.attrs) {
@@ -164,8 +249,23 @@ impl Crate {
                 }
                 let ty = type_head(&im.self_ty).unwrap_or_else(|| "?".into());
                 let tr = im.trait_.as_ref().map(|(_, p, _)| trait_name(p)).unwrap_or_default();
+                // hand-written impls of std traits whose meaning the translation erases or assumes (`clone()` is the
+                // identity, values are dropped silently, `==`/`<` between the crate's own types only, no auto-deref to
+                // another type, no indexing or iteration protocol of its own)
+                {
+                    let head = tr.split('<').next().unwrap_or("").to_string();
+                    let cross_type = (head == "PartialEq" || head == "PartialOrd") && tr.contains('<');
+                    if matches!(head.as_str(), "Clone" | "Drop" | "Deref" | "DerefMut" | "Borrow" | "BorrowMut" | "AsRef" | "AsMut" | "Index" | "IndexMut" | "IntoIterator" | "Iterator" | "FromIterator" | "Extend" | "Default" | "ToOwned" | "Not" | "Neg" | "Add" | "Sub")
+                        || cross_type
+                    {
+                        self.global_problems.push(format!("hand-written `impl {} for {}`: the translation takes the standard meaning of that trait for granted", tr, ty));
+                    }
+                }
                 for ii in &im.items {
                     if let ImplItem::Fn(f) = ii {
+                        if let Some(c) = odd_cfg(&f.attrs) {
+                            self.global_problems.push(format!("conditionally compiled method `{}::{}`: `{}`", ty, f.sig.ident, c));
+                        }
                         // an inherent method named like a method of a std trait the type implements wins over the trait
                         // method at every unchanged call site — inside the crate and in its users (`r.to_string()`,
                         // `a.cmp(&b)`, `v.clone()`, `"..".parse()` goes through `from_str`)
@@ -211,6 +311,7 @@ impl Crate {
                 self.enums.insert(e.ident.to_string(), e.clone());
             }
             syn::Item::Struct(s) => {
+                self.check_name(&s.ident.to_string(), "struct");
                 self.structs.insert(s.ident.to_string(), s.clone());
             }
             syn::Item::Const(c) => {
@@ -271,6 +372,10 @@ impl Crate {
 
     /// an item of the crate named like something the translation gives a fixed (std / winnow) meaning
     fn check_name(&mut self, name: &str, what: &str) {
+        const PRIMITIVES: &[&str] = &["u8", "u16", "u32", "u64", "u128", "usize", "i8", "i16", "i32", "i64", "i128", "isize", "bool", "char", "str", "f32", "f64"];
+        if PRIMITIVES.contains(&name) {
+            self.global_problems.push(format!("the crate defines a {} named like the primitive type `{}`", what, name));
+        }
         if config::FIXED_NAMES.contains(&name) {
             self.global_problems.push(format!("the crate defines a {} named `{}`, a name the translation takes to be the standard one", what, name));
         }
